@@ -147,7 +147,10 @@ OnOp(L, e, line) ==
          !.replacedSure = IF Cardinality({p[1] : p \in repl2} \cap StoredToks(L)) = 1 /\ Cardinality({p[1] : p \in repl2}) = 1
                             THEN L.replacedSure \cup repl2 ELSE L.replacedSure,
          !.vu = L.vu \cup { L.tk[p[1]].rq.u : p \in repl2 },
-         !.last = [kind |-> "op", line |-> line, e |-> e, toks |-> toks, tags |-> tags] ]
+         \* gone: the tokens a successful delete removed from the store; ou: the resource the deleting exchange is about
+         !.last = [kind |-> "op", line |-> line, e |-> e, toks |-> toks, tags |-> tags,
+                   gone |-> IF e.kind = "del" /\ ok /\ e.k \in DOMAIN L.kv THEN L.kv[e.k].toks ELSE {},
+                   ou |-> IF e.x \in DOMAIN L.open THEN L.open[e.x].rq.u ELSE -1] ]
 
 OnCall(L, e, line) ==
   LET rq == L.open[e.x].rq
@@ -354,6 +357,11 @@ M08(L) ==
   \* other variants stay available after a validation result was written back for the URI
   /\ (A09(L) /\ ~Reused(L) => L.last.rq.u \notin L.vu)
 M07x(L) == (A09(L) /\ ~Reused(L)) => (L.last.cands \cap L.namedxo = {})
+\* an exchange never deletes what is stored for a resource of another origin (URI class = 10 * origin + path): a response
+\* cannot evict another origin's entries, however its Location / Content-Location are spelled
+OriginOfU(u) == u \div 10
+M07o(L) == IsOp(L) /\ L.last.e.kind = "del" /\ L.last.ou >= 0 =>
+             \A T \in L.last.gone \cap DOMAIN L.tk : OriginOfU(L.tk[T].rq.u) = OriginOfU(L.last.ou)
 
 \* --- C10 ---------------------------------------------------------------
 A10(L) == IsRet(L)
@@ -484,7 +492,7 @@ M20(L) ==
 
 Mons(L) ==
   { <<"C01", M01(L)>>, <<"C02", M02(L)>>, <<"C03", M03(L)>>, <<"C04", M04(L)>>, <<"C05", M05(L)>>,
-    <<"C06", M06(L)>>, <<"C07", M07(L) /\ M07x(L)>>, <<"C08", M08(L)>>, <<"C09", M09(L)>>,
+    <<"C06", M06(L)>>, <<"C07", M07(L) /\ M07x(L) /\ M07o(L)>>, <<"C08", M08(L)>>, <<"C09", M09(L)>>,
     <<"C10", M10(L)>>, <<"C11", M11(L)>>, <<"C12", M12(L) /\ M12x(L)>>, <<"C13", M13(L)>>, <<"C16", M16(L)>>,
     <<"C18", M18(L)>>, <<"C19", M19(L)>>, <<"C20", M20(L)>> }
 
